@@ -178,12 +178,21 @@ int write_srec(Memory *memory, FILE *out, int srec_size)
 
   if (memory->entry_point != 0xffffffff)
   {
-    int checksum = 3 + ((memory->entry_point >> 8) & 0xff) +
-                        (memory->entry_point & 0xff);
+    const uint32_t entry_point = memory->entry_point;
+
+    // S9 carries a 16 bit start address, S8 a 24 bit and S7 a 32 bit one.
+    int length = entry_point <= 0xffff ? 2 : (entry_point <= 0xffffff ? 3 : 4);
+    int checksum = length + 1;
+
+    for (int i = 0; i < length; i++)
+    {
+      checksum += (entry_point >> (i * 8)) & 0xff;
+    }
 
     checksum = (checksum & 0xff) ^ 0xff;
 
-    fprintf(out, "S903%04x%02x\n", memory->entry_point, checksum);
+    fprintf(out, "S%d%02x%0*x%02x\n",
+      11 - length, length + 1, length * 2, entry_point, checksum);
   }
 
   return 0;
